@@ -13,12 +13,12 @@ BUILT = os.environ.get("QSIM_BUILT", "").split() or None
 TEXT = {
     "C13": dict(
         technique="deterministic simulation: virtual monotonic clock, deadline injected at every clock read (fault enumeration), work counted between checks",
-        text="Every expiry point (deadline strictly between two consecutive reads of the virtual perf_counter) of each input is executed when the run has few reads; for long runs all reads before the production loop plus a seeded sample. Each run is judged for: no exception, prefix of the no-deadline stream, nothing executed after the check that saw the deadline, at most one candidate sequence analysed / one partial parse expanded between two checks, ctparse() == best of the prefix. The stop point is computed from the reference run alone (first deadline check whose reading exceeds start + timeout), so a deadline measured from the wrong origin or not honoured at all is caught however the library measures elapsed time; ctparse(timeout=0) must equal the best of the unlimited stream. Stalls (one read jumps far past the deadline), slow-consumer stalls (the caller sits on the k-th candidate) and clocks with jittered, nanosecond- and mega-scale readings are injected too. Fault enumeration is the right level because the fault space (where the deadline falls) is finite per input and enumerable only with a virtual clock.",
+        text="Every expiry point (deadline strictly between two consecutive reads of the virtual perf_counter) of each input is executed when the run has few reads; for long runs all reads before the production loop plus a seeded sample. Each run is judged for: no exception, prefix of the no-deadline stream, nothing executed after the check that saw the deadline, at most one candidate sequence analysed / one partial parse expanded between two checks, ctparse() == best of the prefix. The stop point is computed from the reference run alone (first deadline check whose reading exceeds start + timeout), so a deadline measured from the wrong origin or not honoured at all is caught however the library measures elapsed time; ctparse(timeout=0) must equal the best of the unlimited stream. Inputs too long for a reference run (1200 adjacent expressions, 500 repeated ambiguous tokens) are run with deadlines only and judged for: no exception, result object, nothing after the expiring check, bounded work. Deadlines are also handed over as int. Stalls (one read jumps far past the deadline), slow-consumer stalls (the caller sits on the k-th candidate) and clocks with jittered, nanosecond- and mega-scale readings are injected too. Fault enumeration is the right level because the fault space (where the deadline falls) is finite per input and enumerable only with a virtual clock.",
         note="Trusted: discrete-event time (time passes only at clock reads); perf_counter monotonic; the counting wrappers installed on PartialParse.from_regex_matches/apply_rule/_filter_rules and the counting Scorer (for the library's own scorer object: a per-row counter on CTParsePipeline.predict_log_proba) observe all work. Inputs are sampled (ambiguity family n=2..6 repeated tokens, fixed texts, grammar texts).",
         ref="4.1"),
     "C14": dict(
         technique="deterministic simulation: the Scorer is the seeded scheduler of the search; emission history checked after each step",
-        text="The search is driven by a simulated scorer (constant, shipped, negated, FIFO/LIFO counters, seeded uniform / coarse / tiny-scale / last-bit / huge-scale) that decides the order of every rule application; the single-result call is compared with the recorded stream under an identical score script; finiteness and the strictly-better re-emission rule are checked over the emission history. Seeded exploration over texts x schedulers x depth limits x reference times.",
+        text="The search is driven by a simulated scorer (constant, shipped, negated, FIFO/LIFO counters, seeded uniform / coarse / tiny-scale / last-bit / huge-scale) that decides the order of every rule application; the single-result call is compared with the recorded stream under an identical score script; finiteness and the strictly-better re-emission rule are checked over the emission history, also for very deep searches (about 350 000 partial productions in one parse), falsy scorer objects, integer scores beyond 2**53 and runs with every option left at its default. Seeded exploration over texts x schedulers x depth limits x reference times.",
         note="Trusted: oracle-side value keys (all fields, both ends, amount+unit); the score script replays exactly. Sampling, not proof.",
         ref="4.3"),
     "C15": dict(
@@ -28,7 +28,7 @@ TEXT = {
         ref="4.3"),
     "C12": dict(
         technique="deterministic simulation: seeded interleaving of call/stream/abandon/fail steps and baton-passing threads pre-empted at line events, against a stateless table filled by fresh interpreters under several hash seeds",
-        text="Histories of calls, step-wise consumed candidate streams, abandoned/leaked streams, failing calls and virtual-deadline calls from 2-6 simulated clients are interleaved by a seeded scheduler; after every step the observation must equal the entry of a stateless reference table computed by fresh interpreters (first and only call) under different PYTHONHASHSEEDs. Every history lives on one virtual monotonic clock (streams opened under positive timeouts, time advancing while all are suspended). Pools are related texts (same tokens reordered, other surface form, same instant in another zone, other scorer); overlap scenarios suspend a stream while the same text is parsed under other arguments; long sequential histories run 450-4200 distinct texts with early ones coming back. All interleavings of small stream pairs are enumerated. Real threads are scheduled one at a time (sys.settrace line/opcode pre-emption), liveness judged by progress. Model, rule base and the caller's scorer argument are digested before/after.",
+        text="Histories of calls, step-wise consumed candidate streams, abandoned/leaked streams, failing calls (the caller's scorer raising its own or builtin exception types; calls that raise inside the library because the answer is not representable) and virtual-deadline calls from 2-6 simulated clients are interleaved by a seeded scheduler; after every step the observation must equal the entry of a stateless reference table computed by fresh interpreters (first and only call) under different PYTHONHASHSEEDs. Every history lives on one virtual monotonic clock (streams opened under positive timeouts, time advancing while all are suspended). Pools are related texts (same tokens reordered, other surface form, same instant in another zone, other scorer); overlap scenarios suspend a stream while the same text is parsed under other arguments; offset scenarios keep the same expression alive at different character offsets in two streams; long sequential histories run 450-4200 distinct texts with early ones coming back. All interleavings of small stream pairs are enumerated. Real threads are scheduled one at a time (sys.settrace line/opcode pre-emption), liveness judged by progress. Model, rule base and the caller's scorer argument are digested before/after.",
         note="Trusted: C code inside one regex call is atomic (cannot be pre-empted under our control); thread switch points are line/opcode events in /repo/ctparse only.",
         ref="4.2"),
     "C03": dict(
@@ -58,7 +58,7 @@ TEXT = {
         ref="4.5"),
     "C16": dict(
         technique="deterministic simulation: fit/predict/score/save/load/restart histories on a simulated store with write faults; textbook NB reference model",
-        text="Seeded histories of FIT / PREDICT / SCORE / SAVE / LOAD / RESTART over random corpora; predictions must equal a from-the-definition multinomial NB reference within 1e-9, be finite and normalised; scores must decompose as stated; save+load and restart in a fresh interpreter under another hash seed must be bit-identical; a failed save (short write + ENOSPC at the k-th write) must leave the in-memory model intact; a pipeline fitted again in place must be the model of its new training set; a model file replaced by rename behind the library's back must be what the next load returns; long-lived scorer objects are kept across re-fits.",
+        text="Seeded histories of FIT / PREDICT / SCORE / SAVE / LOAD / RESTART over random corpora (tiny to 75 000-token alphabets, lopsided classes, empty documents, exotic token strings); predictions must equal a from-the-definition multinomial NB reference within 1e-9, be finite and normalised; scores must decompose as stated; save+load and restart in a fresh interpreter under another hash seed must be bit-identical; a failed save (short write + ENOSPC at the k-th write) must leave the in-memory model intact; a pipeline fitted again in place must be the model of its new training set; a model file replaced by rename behind the library's back must be what the next load returns; long-lived scorer objects are kept across re-fits.",
         note="Trusted: the 40-line reference model; bz2/pickle real. Sampling.",
         ref="4.6"),
 }
